@@ -117,9 +117,11 @@ def gen_tag(rng):
 
 
 def gen_random_input(rng, malformed):
-    k = rng.weighted([("sc", 8), ("buf", 5), ("tag", 5), ("ss", 2), ("eos", 1), ("err", 0.7), ("other", 0.7),
+    k = rng.weighted([("sc", 8), ("buf", 5), ("tag", 5), ("ss", 2), ("eos", 1), ("err", 0.7), ("other", 0.3),
+                      ("warn", 0.3), ("async", 0.3), ("elem", 0.4),
                       ("seg", 1), ("prep", 1.5), ("uri", 2), ("start", 2), ("pause", 1.5), ("stop", 1.2),
-                      ("seek", 1), ("tags?", 1.5)])
+                      ("seek", 1), ("tags?", 1.5), ("pos?", 0.8), ("atfcb", 0.8), ("srccb", 0.5),
+                      ("atf", 1.6), ("src", 1.2)])
     if k == "sc":
         news = STATES if malformed else STATES[1:]
         return ("sc", rng.random() < 0.9, rng.choice(STATES), rng.choice(news), rng.choice(STATES))
@@ -138,6 +140,17 @@ def gen_random_input(rng, malformed):
         return ("uri", rng.randrange(N_URIS), rng.random() < 0.2, rng.random() < 0.2)
     if k == "seek":
         return ("seek", rng.choice([0, 1, 1500, rng.randrange(0, 10**7)]), rng.random() < 0.8)
+    if k == "elem":
+        return ("elem", rng.random() < 0.6)
+    if k == "pos?":
+        return ("pos?", rng.random() < 0.8, rng.choice([0, 999999, 1000000, 1500000000, rng.randrange(0, 10**12)]))
+    if k in ("atfcb", "srccb"):
+        return (k, rng.random() < 0.75)
+    if k == "atf":
+        nxt = None if rng.random() < 0.2 else [rng.randrange(N_URIS), rng.random() < 0.2, rng.random() < 0.3]
+        return ("atf", rng.random() < 0.25, nxt)
+    if k == "src":
+        return ("src", rng.random() < 0.9, rng.random() < 0.6, rng.random() < 0.6, rng.random() < 0.6)
     return (k,)
 
 
@@ -165,7 +178,11 @@ def gen_case(rng, max_len):
                 sim.fresh = True
             elif move == "gapless":
                 # about-to-finish: the next URI is set while playing, its tags arrive, then it starts
-                out.append(("uri", rng.randrange(N_URIS), False, False))
+                if rng.random() < 0.6:
+                    out += [("atfcb", True), ("atf", False, [rng.randrange(N_URIS), False, rng.random() < 0.3]),
+                            ("src", True, True, rng.random() < 0.5, rng.random() < 0.5)]
+                else:
+                    out.append(("uri", rng.randrange(N_URIS), False, False))
                 for _ in range(rng.randint(0, 2)):
                     out.append(gen_tag(rng))
                 out.append(("ss",))
@@ -183,6 +200,13 @@ def gen_case(rng, max_len):
 
 
 CORPUS_INLINE = [
+    # about-to-finish: refused inside the actor thread, ignored without callback, else runs set_uri
+    [("atf", False, [1, False, False]), ("atfcb", True), ("atf", True, [2, False, True]), ("atf", False, [3, True, True]),
+     ("src", True, True, True, True), ("tag", [[0, [keep(2)]]]), ("ss",), ("atf", False, None), ("atfcb", False),
+     ("atf", False, [0, False, False]), ("ss",), ("src", False, True, True, True), ("srccb", True),
+     ("src", True, False, True, False), ("src", True, True, False, True)],
+    [("warn",), ("async",), ("elem", True), ("elem", False), ("other", "INFO"), ("pos?", True, 1500000000),
+     ("pos?", False, 77), ("pos?", True, 999999), ("seek", 1500, True)],
     # live dict_keys view at stream start (fixed): tags after stream start must not leak back
     [("prep", True), ("uri", 1, False, False), ("tag", [[0, [keep(1)]]]), ("ss",), ("tag", [[1, [keep(2)]]])],
     # silent state update while a track change is requested (target READY)
@@ -278,6 +302,7 @@ def monitors(inputs, obs):
     last_uri = None
     in_pending = False       # a set_uri happened and its stream has not started yet
     pending_acc = {}         # what TAG messages delivered since that set_uri
+    atf_cb = False           # an about-to-finish callback is registered
     reported = {}            # accumulation of what tags_changed reported for the current stream
     prev_tags = {}
     log = []
@@ -290,6 +315,15 @@ def monitors(inputs, obs):
         req_before = requested
         if k in REQUEST:
             requested = REQUEST[k]
+        # the set_uri this input performs, if any (the call, or the about-to-finish callback run
+        # outside the actor thread)
+        new_uri = None
+        if k == "uri":
+            new_uri = inp[1]
+        elif k == "atf" and not inp[1] and atf_cb and inp[2] is not None:
+            new_uri = inp[2][0]
+        if k == "atfcb":
+            atf_cb = bool(inp[1])
 
         # ---- T1 reports_sound
         for e in evs:
@@ -336,8 +370,8 @@ def monitors(inputs, obs):
                 fail("stream_announced_once", {"input": "ss"}, f"stream start announced {streams}, expected [{exp_uri}]")
         elif any(u is not None for u in streams):
             fail("stream_announced_once", {"input": k}, f"stream_changed({streams}) outside a stream start")
-        if k == "uri":
-            last_uri = inp[1]
+        if new_uri is not None:
+            last_uri = new_uri
 
         # ---- T4 tags
         tag_evs = [e for e in evs if e["name"] == "tags_changed"]
@@ -371,7 +405,7 @@ def monitors(inputs, obs):
                 fail("tags", {"input": "tag", "clause": "update"}, f"current tags {cur_tags} != {exp}")
         elif tag_evs:
             fail("tags", {"input": k, "clause": "source"}, f"tags_changed emitted by input {inp!r}")
-        if k == "uri":
+        if new_uri is not None:
             in_pending, pending_acc = True, {}
         if k == "eos":
             reported = {}
@@ -397,7 +431,8 @@ def monitors(inputs, obs):
                          f"buffering set the pipeline to {c} while {req_before} requested")
             if any(c[1] != "state" for c in o["cmds"]):
                 fail("buffering_never_overrides", {"input": "buf", "clause": "foreign"}, f"buffering issued {o['cmds']}")
-        elif k in ("sc", "tag", "ss", "eos", "seg", "other", "tags?") and o["cmds"]:
+        elif k in ("sc", "tag", "ss", "eos", "seg", "other", "tags?", "warn", "async", "elem", "pos?",
+                   "atfcb", "srccb") and o["cmds"]:
             fail("buffering_never_overrides", {"input": k, "clause": "message_commands"},
                  f"message {k} made the audio layer command the pipeline: {o['cmds']}")
         if state_cmds:
@@ -441,10 +476,24 @@ def e_input(i):
     if k == "seg":
         return f"Segment {g_z(i[1])}"
     if k == "uri":
-        return f"SetUri {i[1]} {g_bool(i[2])}"
+        return f"SetUri {i[1]} (mkF {g_bool(i[2])} {g_bool(i[3])})"
+    if k == "elem":
+        return f"Element {g_bool(i[1])}"
+    if k == "pos?":
+        return f"GetPosition {g_bool(i[1])} {g_z(i[2])}"
+    if k == "atfcb":
+        return f"SetAtfCallback {g_bool(i[1])}"
+    if k == "srccb":
+        return f"SetSourceCallback {g_bool(i[1])}"
+    if k == "atf":
+        nxt = "None" if i[2] is None else f"(Some ({i[2][0]}, mkF {g_bool(i[2][1])} {g_bool(i[2][2])}))"
+        return f"AboutToFinish {g_bool(i[1])} {nxt}"
+    if k == "src":
+        return f"SourceSetup {g_bool(i[1])} {g_bool(i[2])} {g_bool(i[3])} {g_bool(i[4])}"
     if k == "seek":
         return f"SetPosition {g_z(i[1])} {g_bool(i[2])}"
-    simple = {"ss": "StreamStart", "eos": "Eos", "err": "Error", "other": "Other", "tags?": "GetCurrentTags"}
+    simple = {"ss": "StreamStart", "eos": "Eos", "err": "Error", "other": "Other", "tags?": "GetCurrentTags",
+              "warn": "Warning", "async": "AsyncDone"}
     if k in simple:
         return simple[k]
     return {"prep": "PrepareChange", "start": "Start", "pause": "Pause", "stop": "Stop"}[k] + " " + g_bool(i[1])
@@ -511,7 +560,32 @@ def e_cmd(c):
         return f"CUri {uri_id(b)}"
     if kind == "queue" and what == "seek":
         return f"CSeek {g_z(a)}"
+    if kind == "cb" and what == "atf":
+        return "CCallAtf"
+    if kind == "cb" and what == "source":
+        return "CCallSource"
+    if kind == "source" and what == "live" and a is True:
+        return "CSetLive"
+    if kind == "source" and what == "proxy3":
+        return "CProxy"
     raise Unrepresentable(f"command {c!r}")
+
+
+def fold_proxy(cmds):
+    """utils.setup_proxy sets proxy, proxy-id, proxy-pw on the source: one modelled command.
+    The proxy URL must be httpclient.format_proxy(config, auth=False) of the rig's config."""
+    out, i = [], 0
+    while i < len(cmds):
+        c = cmds[i]
+        names = [x[2] for x in cmds[i: i + 3] if x[0] == "source" and x[1] == "prop"]
+        if c[0] == "source" and c[1] == "prop" and names == ["proxy", "proxy-id", "proxy-pw"] \
+                and cmds[i][3] == "https://proxy.example:8080" and cmds[i + 1][3] == "u" and cmds[i + 2][3] == "p":
+            out.append(("source", "proxy3", None, None))
+            i += 3
+        else:
+            out.append(c)
+            i += 1
+    return out
 
 
 def e_obs(o, prev_tags):
@@ -524,12 +598,16 @@ def e_obs(o, prev_tags):
         ret = f"(OTagsRet {e_dict(r[1])})"
     elif r == ("raise", "KeyError"):
         ret = "ORaise"
+    elif r == ("raise", "AudioException"):
+        ret = "ORaiseAudio"
+    elif r[0] == "pos":
+        ret = f"(OPos {g_z(r[1])})"
     else:
         raise Unrepresentable(f"exception {r!r}")
     evs = g_list([e_event(e) for e in o["events"] if e["cls"] == "AudioListener"])
     # compared commands: set_state, the uri property, seeks (other playbin properties such as
     # "flags" are not something the property speaks about)
-    cmds = g_list([e_cmd(c) for c in o["cmds"] if not (c[1] == "prop" and c[2] != "uri")])
+    cmds = g_list([e_cmd(c) for c in fold_proxy(o["cmds"]) if not (c[0] == "playbin" and c[1] == "prop" and c[2] != "uri")])
     tags = "None" if o["tags"] == prev_tags else f"(Some {e_dict(o['tags'])})"
     return f"B_ {ret} {evs} {cmds} {e_pstate(o['state'])} {GST[o['target']]} {g_bool(o['buffering'])} {tags}"
 
@@ -621,6 +699,11 @@ def check_cases(chk, name, all_inputs, rng):
             chk.dist("in:" + i[0])
         for n in names:
             chk.dist("ev:" + n)
+        for o in obs:
+            for c in fold_proxy(o["cmds"]):
+                chk.dist("cmd:" + c[0] + "." + c[1] + ("." + str(c[2]) if c[1] in ("state", "prop") and c[0] == "playbin" else ""))
+            if o["ret"][0] == "raise":
+                chk.dist("raise:" + o["ret"][1])
         if any(o["ret"][0] == "raise" for o in obs):
             chk.dist("case:raises")
         if buf_cmds:
